@@ -46,8 +46,9 @@ def h_minfreqmod(ctx, given):
 def obligations(tier):
     pj = [dict(k=k, totals=t, with_absent=a) for k, t in ((2, (2, 3)), (3, (1, 3, 2)), (4, (2, 2, 1, 3))) for a in (False, True)]
     return [
+        k_api.obligation_qual(tier, {"C02"}, "O2.5 end to end on qualitative and ordinal features: literal C02 statement on the transformed training frame"),
         k_api.obligation(tier, {"C02"}, "O2.4 end to end: transformed training frame has <= max_n_mod labels, each >= min_freq_mod frequent, NaN per dropna",
-                         ["BinaryCarver", "ContinuousCarver"], ns=[4] if tier == "quick" else [4, 5], max_pats=8 if tier == "quick" else 30),
+                         ["BinaryCarver", "ContinuousCarver"], ns=[4] if tier == "quick" else [4, 5], max_pats=6 if tier == "quick" else 24, dev=True),
         k_select.obligation(tier, {"C02"}, "O2.1a returned groupings respect max_n_mod (NaN group included), min_freq_mod on train and dev, dev rank agreement - any measure", "abstract"),
         k_select.obligation_cont(tier, {"C02"}, "O2.1c ContinuousCarver: returned groupings respect max_n_mod, min_freq_mod, NaN handling (any measure value)"),
         k_select.obligation(tier, {"C02"}, "O2.1b same with the real measures on solver-chosen crosstabs", "real"),
